@@ -218,7 +218,7 @@ func bitsOf(m int) int {
 // alteration walker has every kind of field to visit.
 func (e *c01Env) richLayout(variant int) {
 	l := &e.chain.Layout
-	l.Readme = "readme text"
+	l.Readme = "readme text\nsecond line"
 	l.Steps[0].ExpectedCommand = []string{"vi", "src/a.c"}
 	l.Steps[1].ExpectedCommand = []string{"tar", "cf", "pkg.tar", "src"}
 	if variant >= 1 {
@@ -272,7 +272,7 @@ func (e *c01Env) alterations(variant int, caseNo *int, foreign gen.KeyPair) {
 		return
 	}
 	origPayload, _ := json.Marshal(e.chain.Layout)
-	kinds := map[string]bool{"edit": true, "replace": true, "delete": true, "insert": true, "reorder": true}
+	kinds := map[string]bool{"edit": true, "replace": true, "delete": true, "insert": true, "reorder": true, "subtle": true}
 	var muts []gen.Mutation
 	var payloadDoc any
 	if e.dsse {
@@ -514,6 +514,37 @@ func (e *c01Env) signatureList(caseNo *int, foreign gen.KeyPair) {
 			return []any{a, s[1]}, false, true
 		}},
 	}
+	// several entries under one key id: none of them valid / a valid one behind an invalid one
+	junkHex := func(a map[string]any) map[string]any {
+		b := gen.DeepCopy(a).(map[string]any)
+		if e.dsse {
+			b["sig"] = "AAAA"
+		} else {
+			b["sig"] = "00"
+		}
+		return b
+	}
+	muts = append(muts,
+		sigMut{"k1-corrupt-then-short-junk", func(s []any) ([]any, bool, bool) {
+			a := ent(s, 0)
+			a["sig"] = corrupt(a["sig"].(string), "middle")
+			return []any{a, junkHex(a), s[1]}, false, true
+		}},
+		sigMut{"k1-old-then-short-junk", func(s []any) ([]any, bool, bool) {
+			return []any{oldSigs[0], junkHex(ent(s, 0)), s[1]}, false, true
+		}},
+		sigMut{"k1-two-corrupt", func(s []any) ([]any, bool, bool) {
+			a, b := ent(s, 0), ent(s, 0)
+			a["sig"] = corrupt(a["sig"].(string), "first")
+			b["sig"] = corrupt(b["sig"].(string), "last")
+			return []any{a, b, s[1]}, false, true
+		}},
+		sigMut{"k1-corrupt-then-valid", func(s []any) ([]any, bool, bool) {
+			a := ent(s, 0)
+			a["sig"] = corrupt(a["sig"].(string), "middle")
+			return []any{a, s[0], s[1]}, true, true
+		}},
+	)
 	for _, how := range []string{"first", "middle", "last", "truncate", "empty"} {
 		how := how
 		muts = append(muts, sigMut{"corrupt-k1-" + how, func(s []any) ([]any, bool, bool) {
